@@ -2411,3 +2411,106 @@ def rule_codelen_index(ctx, cfg, r):
                    "equals the code length, so the longest-length / completeness test is off by that shift" % (shifted or "an unrecognised adapter", a), where=sp)
         else:
             r.ok(f.name, "codelen-index", "enumerate numbers total_symbols from length 0 (skip applied afterwards)")
+
+
+# ---------------------------------------------------------------------------------------------- R07.9 input conservation
+_INPUT_READS = ("InputWrapper::read_byte", "InputWrapper::read_u32_le")
+
+
+def _persistent_place(pt, state_locals):
+    """a place that outlives the path: reached through a reference parameter, or a field of one of the decoder's register structs"""
+    q = pt
+    while isinstance(q, tuple) and q and q[0] in ("fld", "idx", "deref", "cidx", "down"):
+        if q[0] == "deref" and isinstance(q[1], tuple) and q[1][0] == "param":
+            return True
+        if q[0] == "fld" and isinstance(q[1], tuple) and q[1][0] == "local" and q[1] in state_locals:
+            return True
+        q = q[1]
+    return False
+
+
+def _row_drops_input(x, state_locals):
+    """call terms of input reads on the path of row x whose byte(s) reach neither a persistent place, a later call, nor the result"""
+    some = set()
+    for a, st in x.atoms:
+        if a[0] == "discr" and isinstance(a[1], tuple) and a[1][0] == "call" and len(a[1]) > 3 and getattr(st, "iv", None) == ((1, 1),):
+            some.add((a[1][1], a[1][3]))
+    reads = []
+    for i, e in enumerate(x.effects):
+        if e[0] != "call" or not any(paths._sfx(e[1], n) for n in _INPUT_READS):
+            continue
+        seq = e[4]
+        if paths._sfx(e[1], "InputWrapper::read_byte") and (e[1], seq) not in some:
+            continue        # returned None on this path (or its result was never inspected): nothing was taken
+        reads.append((i, e[1], seq, e[3]))
+    dropped = []
+    for i, name, seq, span in reads:
+        def is_it(t):
+            return t[0] == "call" and t[1] == name and len(t) > 3 and t[3] == seq
+        kept = False
+        for e in x.effects[i + 1:]:
+            if e[0] == "store" and _persistent_place(e[1], state_locals) and paths.term_contains(e[2], is_it):
+                kept = True
+            elif e[0] == "call" and any(paths.term_contains(a, is_it) for a in e[2] if isinstance(a, tuple)):
+                kept = True
+            if kept:
+                break
+        if not kept and x.ret is not None and paths.term_contains(x.ret, is_it):
+            kept = True
+        if not kept:
+            dropped.append((name, seq, span))
+    return len(reads), dropped
+
+
+def rule_input_conservation(ctx, cfg, r):
+    """Every byte a path takes from the input iterator is, when the path leaves the function (return, suspension or next state), held in
+    the persistent decoder state, handed to a continuation / callee, or part of the result.  A byte that only lives in a temporary when the
+    path returns is counted as consumed but lost: resuming after that suspension decodes a different stream."""
+    c = ctx.crate(cfg)
+    E = ctx.effects(cfg)
+    M = machine(ctx, cfg)
+    n = 0
+    per = {}
+    # helpers that take the input iterator
+    helpers = [f for f in c.fns_matching(lambda f: f.kind not in ("promoted", "closure") and f.name.startswith("inflate::core::")
+                                         and f.name != M.fn.name
+                                         and any("InputWrapper" in l["ty"] for l in f.locals[1:f.argc + 1]))]
+    inl = ["inflate::core::read_byte", "inflate::core::end_of_input"]
+    for f in sorted(helpers, key=lambda f: f.name):
+        ctx.touched(f)
+        ev = paths.Evaluator(c, effects=E, pure_calls=sm.PURE, inline=[i for i in inl if not f.name.endswith(i.split("::")[-1])],
+                             unroll=3, max_blocks=60, max_paths=6000)
+        try:
+            rows = ev.run(f)
+        except paths.PathLimit:
+            rows = paths.Evaluator(c, effects=E, pure_calls=sm.PURE, inline=inl).run(f)
+        for x in rows:
+            if x.outcome[0] != "return":
+                continue
+            k, dropped = _row_drops_input(x, ())
+            n += k
+            per[f.name] = per.get(f.name, 0) + k
+            for name, seq, span in dropped:
+                r.fail(f.name, "input-dropped/" + name.split("::")[-1], "a value taken from the input by %s is held only in a temporary when this path "
+                       "returns: it is counted as consumed but reaches neither the decoder state, a continuation nor the result: %s"
+                       % (name.split("::")[-1], x.describe(6)), where=span)
+    # the state machine itself: rows of every arm (register struct `l` is persistent: R07.1 proves it is stored back)
+    lv = set()
+    for i, l in enumerate(M.fn.locals):
+        if l["ty"].endswith("LocalVars"):
+            lv.add(("local", 0, i))
+    for arm, x in all_rows(M):
+        if x.kind not in ("jump", "end", "none"):
+            continue
+        k, dropped = _row_drops_input(x, lv)
+        n += k
+        per[M.fn.name + "/" + arm] = per.get(M.fn.name + "/" + arm, 0) + k
+        for name, seq, span in dropped:
+            r.fail(M.fn.name, "input-dropped/%s/%s" % (arm, name.split("::")[-1]), "state %s: a value taken from the input by %s is held only in a "
+                   "temporary when the state is left (%s %s)" % (arm, name.split("::")[-1], x.kind, x.target), where=span)
+    failed = {v["key"] for v in r.violations} if hasattr(r, "violations") else set()
+    for k, v in sorted(per.items()):
+        if v:
+            r.ok(k, "input-conservation", "%d input reads on the paths of %s examined" % (v, k))
+    r.note = "input reads examined: %d" % n
+    return n
